@@ -45,6 +45,30 @@ def junit_pass(path):
     return ok
 
 
+AREAS = [   # changed path prefix -> test packages that exercise it (targeted re-run; the seeding agent ran the full suite)
+    ("pandapower/control", ["control", "timeseries", "api"]), ("pandapower/timeseries", ["timeseries", "control"]),
+    ("pandapower/contingency", ["contingency"]), ("pandapower/opf", ["opf"]), ("pandapower/optimal_powerflow", ["opf"]),
+    ("pandapower/pypower/opf", ["opf"]), ("pandapower/pypower/dcopf", ["opf"]), ("pandapower/pypower/pips", ["opf"]),
+    ("pandapower/shortcircuit", ["shortcircuit"]), ("pandapower/estimation", ["estimation"]),
+    ("pandapower/converter", ["converter"]), ("pandapower/toolbox", ["toolbox", "api", "grid_equivalents"]),
+    ("pandapower/create", ["api", "toolbox", "loadflow"]), ("pandapower/std_types", ["api", "toolbox"]),
+    ("pandapower/topology", ["topology", "toolbox"]), ("pandapower/grid_equivalents", ["grid_equivalents"]),
+    ("pandapower/protection", ["protection"]), ("pandapower/diagnostic", ["api"]), ("pandapower/groups", ["toolbox", "api"]),
+    ("pandapower/pf/runpp_3ph", ["loadflow"]), ("pandapower/run.py", ["loadflow", "api", "control"]),
+    ("pandapower", ["loadflow", "api", "contingency", "timeseries", "control"]),       # core power flow: pf/, pypower/, build_*, results*
+]
+
+
+def areas_for(files):
+    out = []
+    for f in files:
+        for pre, dirs in AREAS:
+            if f.startswith(pre):
+                out += [d for d in dirs if d not in out]
+                break
+    return out
+
+
 def main():
     args = [a for a in sys.argv[1:] if not a.startswith("--")]
     flags = [a for a in sys.argv[1:] if a.startswith("--")]
@@ -56,8 +80,8 @@ def main():
     meta = json.load(open(os.path.join(d, "meta.json")))
     prop = meta["property"]
     name = os.path.basename(d.rstrip("/"))
-    wt = "/tmp/seedwt/%s" % name
-    out = "/tmp/seedout/%s" % name
+    wt = "/tmp/seedwt/%s_%d" % (name, os.getpid())       # unique per invocation: several engineers may confirm the same seed
+    out = "/tmp/seedout/%s_%d" % (name, os.getpid())
     res = {"seed": name, "property": prop, "repo_head": None, "steps": {}}
     prev_path = os.path.join(d, "confirm.json")
     prev = json.load(open(prev_path)) if os.path.exists(prev_path) else {}
@@ -83,9 +107,27 @@ def main():
         res["steps"]["compile"] = {"rc": rc, "ok": rc == 0, "tail": o[-400:]}
         rc1, o1, t = sh([PY, "-B", demo], cwd=wt, env=env, timeout=900)
         res["steps"]["demo_mutated"] = {"rc": rc1, "ok": rc1 != 0, "s": round(t, 1), "tail": o1[-600:]}
-        if "--no-suite" in flags and "suite" in prev.get("steps", {}):
+        psuite = prev.get("steps", {}).get("suite", {})
+        if psuite.get("ok") and ("--no-suite" in flags or ("--suite-targeted" in flags and psuite.get("scope", "full") == "full")):
             res["steps"]["suite"] = prev["steps"]["suite"]          # keep an earlier suite result
-        if "--no-suite" not in flags:
+        if "--suite-targeted" in flags and "suite" in res["steps"]:
+            pass                                                     # an earlier full pass is kept
+        elif "--suite-targeted" in flags:
+            base = json.load(open("/root/.vp/BASELINE.json"))
+            dirs = areas_for(changed)
+            jx = os.path.join(out, "junit.xml")
+            rc, o, t = sh([PY, "-m", "pytest", "-q", "-p", "no:cacheprovider", "--timeout=1800", "--continue-on-collection-errors",
+                           "-n", os.environ.get("SEED_SUITE_PROCS", "6"), "--junitxml=" + jx] +
+                          ["pandapower/test/" + d for d in dirs], cwd=wt, timeout=5400)
+            want = [x for x in base["stable_pass"] if any(x.startswith("pandapower.test.%s." % d) for d in dirs)]
+            try:
+                ok = junit_pass(jx)
+                lost = sorted(set(want) - ok)
+            except Exception as ex:  # noqa
+                lost = ["<no junit: %s>" % ex]
+            res["steps"]["suite"] = {"rc": rc, "ok": not lost, "lost": lost[:20], "n_lost": len(lost), "s": round(t, 1),
+                                     "scope": "targeted: " + " ".join(dirs), "n_baseline_tests_in_scope": len(want), "tail": o[-300:]}
+        elif "--no-suite" not in flags:
             base = json.load(open("/root/.vp/BASELINE.json"))
             jx = os.path.join(out, "junit.xml")
             rc, o, t = sh([PY, "-m", "pytest", "-q", "-p", "no:cacheprovider", "--timeout=900", "--continue-on-collection-errors",
@@ -96,7 +138,7 @@ def main():
             except Exception as ex:  # noqa
                 lost = ["<no junit: %s>" % ex]
             res["steps"]["suite"] = {"rc": rc, "ok": not lost, "lost": lost[:20], "n_lost": len(lost), "s": round(t, 1),
-                                     "tail": o[-300:]}
+                                     "scope": "full", "tail": o[-300:]}
         props = [prop] + [p for p in meta.get("also_check", [])]
         res["checks"] = {}
         if "--suite-only" in flags:
